@@ -179,6 +179,12 @@ func treeProp() engine.AnyProp {
 					nonHold++
 				}
 			}
+			// whatever one takes the warm-up of a compound to be: an input shorter than it yields only
+			// Holds, so an output that holds a Buy or Sell comes from an input of at least the warm-up
+			// and must have exactly one action per snapshot
+			if nonHold > 0 && len(acts) != n {
+				o.Failf("%s: %d actions for %d snapshots although the output holds %d non-Hold action(s) (only an all-Hold output of a too short input may be longer): %v", c.Tree, len(acts), n, nonHold, acts)
+			}
 			o.NonTrivial = n >= w && nonHold > 0
 			o.Class("root:" + c.Tree.Op)
 			o.Add("non_hold_actions", nonHold)
